@@ -417,3 +417,100 @@ def check_C09(ctx):
 def check_C10(ctx):
     ctx.assumptions += TABLE_ASSUME + ["'until it answers again' is read as 'or is admitted anew by a later mention' (DESIGN §5 C10)"]
     table_pipeline(ctx, ["C10"])
+
+
+# =========================================================================================== C19
+
+TXN_CFG = """SPECIFICATION Spec
+CONSTANTS
+  BLOCK = %(block)d
+  MMAX = %(mmax)d
+  AMAX = %(amax)d
+  DRAWS = %(draws)d
+INVARIANT %(inv)s
+CHECK_DEADLOCK FALSE
+"""
+
+
+def check_C19(ctx):
+    ctx.assumptions += [
+        "TLC is correct; the per-block reduction of 16.8 M drawn ids to summaries (vh txn) is trusted (DESIGN §5 C19)",
+        "the action-id wrap at 2^40 is unreachable by drawing and is covered by the model only",
+        "'do not repeat until 2^24 have been issued' is read as: the first 2^24 ids of an activity are pairwise distinct; the "
+        "stronger sliding-window reading is false for the block-shuffle design (shown by mc/MC_Txn_sliding.cfg) and is not demanded",
+        "wire-level discipline (8-byte tids, prefix of the issuing activity, shared first bootstrap id) is checked on node traces",
+    ]
+    q = ctx.quick
+    res = vlib.tlc("mc/MC_Txn.tla", ctx.cfg("mc.cfg", TXN_CFG % dict(block=2, mmax=8, amax=4, draws=12 if q else 20, inv="Inv")),
+                   workers=8, timeout=1200)
+    vlib.require_mc_ok(res, "MC_Txn")
+    ctx.add_mc("MC_Txn(BLOCK=2,MMAX=8,AMAX=4)", res)
+    if not q:
+        res2 = vlib.tlc("mc/MC_Txn.tla", ctx.cfg("mc4.cfg", TXN_CFG % dict(block=4, mmax=8, amax=8, draws=11, inv="Inv")),
+                        workers=16, timeout=2400, heap="16g")
+        vlib.require_mc_ok(res2, "MC_Txn(BLOCK=4)")
+        ctx.add_mc("MC_Txn(BLOCK=4,MMAX=8,AMAX=8)", res2)
+    # vacuity guards: a block length that does not divide the id space breaks the design; the sliding-window reading is false
+    neg = vlib.tlc("mc/MC_Txn.tla", ctx.cfg("neg.cfg", TXN_CFG % dict(block=3, mmax=8, amax=4, draws=12, inv="Inv")), workers=4, timeout=600)
+    vlib.require_mc_fails(neg, "Inv", "BLOCK=3")
+    # binding: the real generators at production constants
+    trace = ctx.path("trace.ndjson")
+    rc, out = vlib.vh(["txn", "--out", trace, "--extra", "3" if q else "9"])
+    tv = vlib.validate_trace("trace/TxnTrace.tla", "trace/TxnTrace.cfg", trace, timeout=1200)
+    nblocks = sum(1 for line in open(trace) if '"MidBlock"' in line)
+    ctx.add_tv("txn", tv, 1, 1)
+    ctx.cov["evaluations"] = nblocks
+    ctx.cov["distinct_nontrivial"] = nblocks
+    ctx.cov["traces_validated_against_impl"] = 1
+    ctx.cov["rule"] = ("one run of the real generators: %d blocks of 2048 ids (2^24 + extra draws through the wrap of message ids) "
+                       "from one MIDGenerator, each block reduced to one summary line checked by TLC, three blocks in full, plus "
+                       "6144 activity prefixes; a case = one block, all blocks are distinct ranges" % nblocks)
+    ctx.cov["samples"] = vlib.head_lines(trace, 3, 300)
+    if tv.drifts:
+        log("DRIFT: %d reports, first: %s" % (len(tv.drifts), tv.drifts[0]))
+    tv_verdict(ctx, tv, trace, "txn-ids")
+
+
+# =========================================================================================== C20
+
+def check_C20(ctx):
+    ctx.level = "exploration"
+    ctx.assumptions += [
+        "spec/Bep42.tla is a faithful transcription of BEP42 (pinned by ASSUME to the five published vectors and the CRC-32C check value)",
+        "TLC evaluates the oracle; the harness only transports (address, id) pairs produced by the public InfoHash::from_ip",
+    ]
+    q = ctx.quick
+    import concurrent.futures
+    nparts = 4 if q else 16
+    def one(i):
+        tr = ctx.path("trace%02d.ndjson" % i)
+        if q:
+            args = ["bep42", "--out", tr, "--n4", "5000", "--n6", "5000", "--part", "%d/%d" % (i, nparts), "--seed", str(vlib.seed() + i)]
+        else:
+            args = ["bep42", "--out", tr, "--classes", "all", "--n6", "100000", "--part", "%d/%d" % (i, nparts), "--seed", str(vlib.seed() + i)]
+        vlib.vh(args)
+        tv = vlib.validate_trace("trace/Bep42Trace.tla", "trace/Bep42Trace.cfg", tr, timeout=3000, heap="3g")
+        tv.trace_file = tr
+        return tv
+    vlib.build_harness()
+    with concurrent.futures.ThreadPoolExecutor(max_workers=nparts) as ex:
+        parts = list(ex.map(one, range(nparts)))
+    tv = vlib.TvMulti(parts, sum(p.nlines for p in parts), max(p.res.wall for p in parts))
+    ids = set()
+    n = 0
+    for i in range(nparts):
+        for line in open(ctx.path("trace%02d.ndjson" % i)):
+            if '"Id"' in line:
+                n += 1
+                ids.add(hash(line))
+    ctx.cov["evaluations"] = n
+    ctx.cov["distinct_nontrivial"] = len(ids)
+    ctx.cov["traces_validated_against_impl"] = nparts
+    ctx.cov["checker_cmd"] = parts[0].res.cmd
+    ctx.cov["rule"] = ("(address, id) pairs from the real InfoHash::from_ip: IPv4 addresses stratified over the 20 mask-relevant bits "
+                       "(%s), remaining bits random; IPv6 random /64 prefixes plus single-bit prefixes; a case is distinct by content; "
+                       "every case is non-trivial (a full BEP42 validation by the TLA+ oracle)" %
+                       ("each single bit both ways, then random classes" if q else "ALL 2^20 classes once"))
+    ctx.cov["samples"] = [l for l in vlib.head_lines(ctx.path("trace00.ndjson"), 4, 300)][1:]
+    ctx.cov["exhaustive"] = False
+    tv_verdict(ctx, tv, ctx.path("trace00.ndjson"), "bep42")
